@@ -22,7 +22,7 @@ class C04(TalCheck):
     level = "exploration"
     gen_opts = {"on_error": 0.15, "max_sites": 26, "pipes": 0.45,
                 "prefixes": 0.3, "switch": 0.2, "macros": 0.12, "pyforms": 0.15, "i18n": 0.1, "code": 0.15, "mutlit": 0.12, "twins": 0.1,
-                "attr_default_interp": 0.5, "raising_forms": 0.06, "bare_names": 0.35}
+                "attr_default_interp": 0.5, "raising_forms": 0.06, "bare_names": 0.35, "selfclose": 0.3}
     plans_per_template = 50
 
     def oracle(self, case, src, occ, tmpl, plan, hcfg, r, m, cover) -> list:
